@@ -47,7 +47,7 @@ type Line struct {
 const (
 	sigAlias    = "typevalue-aliases-caller-bytes:LookupByValue"
 	sigRace     = "decode-typedef-race:concurrent-namedef"
-	sigTie      = "union-order-sensitive:comparetypes-tie"
+	sigTie      = "union-order-sensitive:comparetypes-tie:named-same-name-same-underlying"
 	sigNonCanon = "typevalue-replaced-by-noncanonical-encoding:LookupByValue"
 )
 
@@ -509,7 +509,7 @@ func (w *world) observe() {
 		case w.aliases(now) != 0:
 			w.violate(sigAlias, fmt.Sprintf("the type value of %s returned by LookupTypeValue changed from %x to %x after the caller overwrote the byte slice it had passed to LookupByValue (the context kept the caller's slice)", desc, first, now))
 		case hasTie(typ):
-			w.violate(sigTie, fmt.Sprintf("type value of %s is %x, first read as %x", desc, now, first))
+			w.violate(tieSig(typ), fmt.Sprintf("type value of %s is %x, first read as %x", desc, now, first))
 		default:
 			w.violate("typevalue-unstable:"+kindOf(typ), fmt.Sprintf("the type value of %s was %x and is now %x (serialization of the structure: %x)", desc, first, now, zed.EncodeTypeValue(typ)))
 		}
@@ -651,7 +651,7 @@ func (w *world) finalOracles(tvSeen map[string][]byte) {
 		nk := normKey(d)
 		if other, dup := byNorm[nk]; dup {
 			if hasTie(typ) || hasTie(other) {
-				w.violate(sigTie, fmt.Sprintf("two distinct type objects (ids %d and %d) for the same union: %s and %s -- the member order given by the caller decided, because zed.CompareTypes returns 0 for two different named types with the same name and the same underlying type",
+				w.violate(tieSig(typ, other), fmt.Sprintf("two distinct type objects (ids %d and %d) for the same union: %s and %s -- the member order given by the caller decided, because zed.CompareTypes returns 0 for two different member types",
 					zed.TypeID(other), zed.TypeID(typ), ordKey(u.describe(other)), ordKey(d)))
 			} else {
 				w.violate("not-canonical:"+kindOf(typ), fmt.Sprintf("two distinct type objects (ids %d and %d) with the same structure %s", zed.TypeID(other), zed.TypeID(typ), ordKey(d)))
@@ -679,7 +679,7 @@ func (w *world) finalOracles(tvSeen map[string][]byte) {
 		if err != nil || back != typ {
 			switch {
 			case hasTie(typ):
-				w.violate(sigTie, fmt.Sprintf("translating %s to another context and back yields a different type object %s", ordKey(d), ordKey(u.describe(back))))
+				w.violate(tieSig(typ), fmt.Sprintf("translating %s to another context and back yields a different type object %s", ordKey(d), ordKey(u.describe(back))))
 			case w.overlap && back != nil && normKey(eraseNamed(u.describe(back))) == normKey(eraseNamed(d)):
 				w.violate(sigRace, fmt.Sprintf("after a lost typedef race the context's type table maps the type value of %s to the type %s: translating the type to another context and back does not return it", ordKey(u.describe(tw)), ordKey(u.describe(back))))
 			default:
@@ -715,7 +715,7 @@ func (w *world) finalOracles(tvSeen map[string][]byte) {
 		}
 		if got := w.ctx.LookupTypeUnion(rev); got != un {
 			if hasTie(un) {
-				w.violate(sigTie, fmt.Sprintf("LookupTypeUnion with the members of %s listed in reverse order returns a different type object", ordKey(u.describe(un))))
+				w.violate(tieSig(un), fmt.Sprintf("LookupTypeUnion with the members of %s listed in reverse order returns a different type object (zed.CompareTypes returns 0 for two different member types)", ordKey(u.describe(un))))
 			} else {
 				w.violate("union-order-sensitive:"+fmt.Sprint(len(un.Types)), fmt.Sprintf("LookupTypeUnion with the members of %s listed in reverse order returns a different type object %s", ordKey(u.describe(un)), ordKey(u.describe(got))))
 			}
